@@ -177,6 +177,34 @@ def fam_dense(r, n):
     r.shuffle(out)
     return norm(out[:n])
 
+def fam_lcp128x(r, n):
+    # dense set below a prefix of exactly 128*j bytes: consecutive strings share 128*j (+0..3) bytes, very short suffixes over a tiny
+    # alphabet, many strings (so the VByte bytes get short codewords)
+    L = r.choice([128, 128, 256, 384])
+    a = r.choice([b"bcde", b"bcd", b"gh", b"xyz"])
+    pre = bytes([a[0] - 1]) * L
+    depth = 4 if len(a) >= 3 else 6
+    suf = []
+    frontier = [b""]
+    for _ in range(depth):
+        nxt = []
+        for w in frontier:
+            for ch in a:
+                nxt.append(w + bytes([ch]))
+        suf += nxt
+        frontier = nxt
+    suf.sort()
+    k = max(2, min(n, len(suf)))
+    if r.random() < 0.5:
+        pick = suf[:k]
+    else:
+        start = r.randrange(0, len(suf) - k + 1)
+        pick = suf[start:start + k]
+    out = set(pre + x for x in pick)
+    if r.random() < 0.3:
+        out.add(pre)
+    return norm(out)
+
 FAMILIES = {
     "uniform26": lambda r, n: fam_uniform(r, n, "a26", 1, 12),
     "uniform2": lambda r, n: fam_uniform(r, n, "a2", 1, 14),
@@ -186,7 +214,7 @@ FAMILIES = {
     "words": fam_words, "urls": fam_urls, "numerals": fam_numerals, "chain": fam_chain, "near": fam_near,
     "len1": fam_len1, "samelen": fam_samelen, "vbyte": fam_vbyte, "longshort": fam_longshort, "long": fam_long,
     "repetitive": fam_repetitive, "copies": fam_copies, "extremes": fam_extremes, "norepeat": fam_norepeat,
-    "last_single": fam_last_single, "skewed": fam_skewed, "dense": fam_dense,
+    "last_single": fam_last_single, "skewed": fam_skewed, "dense": fam_dense, "lcp128x": fam_lcp128x,
 }
 
 def corner_corpus():
@@ -210,6 +238,10 @@ def corner_corpus():
         add("len%d" % L, [b"a", b"b" * L, b"c", b"cd"])
     add("bytes_lo_hi", [b"\x02", b"\x02\x02", b"m", b"\xfe", b"\xfe\xfe"])
     add("runs40", [b"a" * k for k in range(1, 41)])
+    add("runs300", [b"a" * k for k in range(1, 301)])                      # every LCP 0..299 incl. 128 and 256 with one-byte suffixes
+    add("lcp128_dense340", [b"a" * 128 + bytes(w) for w in __import__("itertools").chain.from_iterable(__import__("itertools").product(b"bcde", repeat=l) for l in range(1, 5))])
+    add("lcp128_dense", [b"g" * 128 + x for x in (b"a", b"aa", b"ab", b"b", b"ba", b"bb", b"c", b"ca", b"cb", b"cc")] + [b"g" * 256 + x for x in (b"a", b"ab", b"b", b"bb", b"c")] + [b"a", b"b"])
+    add("lcp_mult128", [b"g" * 128, b"g" * 128 + b"a", b"g" * 128 + b"ab", b"g" * 128 + b"b", b"h" * 256, b"h" * 256 + b"x", b"h" * 257 + b"y", b"i"])
     add("abab", [(b"ab" * 30)[:k] for k in range(1, 50)])
     add("copies64", [b"the quick brown fox jumps over the lazy dog" [:40] + bytes([40 + i]) for i in range(64)])
     add("last_single_z", [b"apple", b"banana", b"cherry", b"z"])
